@@ -105,4 +105,49 @@ impl Subscriber {
 }
 pub open spec fn listed(items: Seq<ListenerItem>, k: ConfigKey) -> bool { exists|i: int| 0 <= i < items.len() && (#[trigger] items[i]).key == k }
 
+// ------------------------------------------------------------------ C09: reads by key (ConfigActor::get_config_info_by_keys)
+/// the row a read by key answers for a stored key: the key, the stored content, the stored md5, the stored description
+pub open spec fn row_of(cache: Map<ConfigKey, ConfigValue>, k: ConfigKey) -> ConfigInfoDto {
+    ConfigInfoDto { tenant: k.tenant, group: k.group, data_id: k.data_id, content: Some(cache[k].content), md5: Some(cache[k].md5), desc: cache[k].desc }
+}
+/// rows of the stored keys among `keys`, in the order asked; keys that are not stored are skipped
+pub open spec fn rows_by_keys(cache: Map<ConfigKey, ConfigValue>, keys: Seq<ConfigKey>) -> Seq<ConfigInfoDto>
+    decreases keys.len()
+{
+    if keys.len() == 0 { Seq::empty() }
+    else {
+        let pre = rows_by_keys(cache, keys.drop_last());
+        if cache.contains_key(keys.last()) { pre.push(row_of(cache, keys.last())) } else { pre }
+    }
+}
+
+
+// ------------------------------------------------------------------ C09: listings (ConfigActor::get_config_info_page)
+pub open spec fn imin(a: int, b: int) -> int { if a <= b { a } else { b } }
+/// the window [off, off+lim) of a list (same text as unit configindex)
+pub open spec fn page<T>(s: Seq<T>, off: int, lim: int) -> Seq<T> { s.subrange(imin(off, s.len() as int), imin(off + lim, s.len() as int)) }
+/// the row a listing shows for a stored key: content and md5 only when the query asks for them
+pub open spec fn list_row(cache: Map<ConfigKey, ConfigValue>, k: ConfigKey, with_content: bool) -> ConfigInfoDto {
+    ConfigInfoDto { tenant: k.tenant, group: k.group, data_id: k.data_id, desc: cache[k].desc,
+        content: if with_content { Some(cache[k].content) } else { None }, md5: if with_content { Some(cache[k].md5) } else { None } }
+}
+/// rows of a page of keys, in page order; a key that is not stored has no row
+pub open spec fn list_rows(cache: Map<ConfigKey, ConfigValue>, keys: Seq<ConfigKey>, with_content: bool) -> Seq<ConfigInfoDto>
+    decreases keys.len()
+{
+    if keys.len() == 0 { Seq::empty() }
+    else {
+        let pre = list_rows(cache, keys.drop_last(), with_content);
+        if cache.contains_key(keys.last()) { pre.push(list_row(cache, keys.last(), with_content)) } else { pre }
+    }
+}
+/// when every key of the page is stored, the rows are the page, one row per key
+pub proof fn lemma_list_rows_all(cache: Map<ConfigKey, ConfigValue>, keys: Seq<ConfigKey>, with_content: bool)
+    requires forall|i: int| 0 <= i < keys.len() ==> cache.contains_key(#[trigger] keys[i])
+    ensures list_rows(cache, keys, with_content).len() == keys.len(),
+        forall|i: int| 0 <= i < keys.len() ==> #[trigger] list_rows(cache, keys, with_content)[i] == list_row(cache, keys[i], with_content)
+    decreases keys.len()
+{
+    if keys.len() > 0 { lemma_list_rows_all(cache, keys.drop_last(), with_content); }
+}
 } // verus!
